@@ -3,7 +3,7 @@ Every phase handler is extracted verbatim and proved to preserve the engine inva
 mechanism / framer / command parser enter as abstract contract stand-ins (prelude/engine_env.rs)."""
 import re
 from vlib.vx import Fn, Item, Raw, as_contract
-from units import command, enc
+from units import command, enc, greeting
 from vlib.runner import Unit
 
 EN = "core/src/protocol/zmtp/engine.rs"
@@ -39,25 +39,12 @@ pub fn verif_stype_name_owned(code: u8) -> (r: Option<String>) ensures r == styp
 // ---- greeting.rs / security/mod.rs callees as contract stand-ins (their own units: greeting, compat, negotiate)
 // std::time::Instant::duration_since saturates at zero
 pub open spec fn elapsed(now: Instant, since: Instant) -> nat { if now.ns() >= since.ns() { (now.ns() - since.ns()) as nat } else { 0 } }
-pub open spec fn v3_tail_len() -> nat { 53 }
-#[verifier::external_body]
-pub fn encode_v3_tail(mechanism: &[u8; 20], as_server: bool, buffer: &mut BytesMut)
-  ensures final(buffer)@.len() == old(buffer)@.len() + v3_tail_len(), final(buffer)@.subrange(0, old(buffer)@.len() as int) == old(buffer)@
-{ unimplemented!() }
 #[verifier::external_body]
 pub fn local_mechanism_name_bytes(config: &ZmtpEngineConfig) -> &'static [u8; 20] { unimplemented!() }
 #[verifier::external_body]
 pub fn socket_type_code(name: &String) -> Option<u8> { unimplemented!() }
 #[verifier::external_body]
 pub fn build_local_ready_props(config: &ZmtpEngineConfig) -> HashMap<String, Vec<u8>> { unimplemented!() }
-impl ZmtpGreeting {
-  #[verifier::external_body]
-  pub fn decode(buffer: &mut BytesMut) -> (r: Result<Option<ZmtpGreeting>, ZmqError>)
-    ensures
-      old(buffer)@.len() < 64 ==> (r matches Ok(None)) && final(buffer)@ == old(buffer)@,
-      old(buffer)@.len() >= 64 ==> !(r matches Ok(None)) && final(buffer)@ == old(buffer)@.subrange(64, old(buffer)@.len() as int),
-  { unimplemented!() }
-}
 // C05: "peer socket type is a valid pairing for the local one" -- established only by a compatibility check
 // (validate_v2_compatibility establishes it on the ZMTP/2.0 path); nothing establishes it on the ZMTP/3.x path today
 pub uninterp spec fn pairing_checked(c: ZmtpEngineConfig, peer_type: Option<String>) -> bool;
@@ -153,6 +140,7 @@ parts = [
   Raw("prelude/command_spec.rs"),
   Raw("prelude/time.rs"),
   Raw("prelude/engine_env.rs"),
+  Raw("prelude/greeting_spec.rs"),
   Item(GR, "const", "GREETING_LENGTH"),
   Item(GR, "const", "MECHANISM_LENGTH"),
   Item(GR, "const", "SIGNATURE_LENGTH"),
@@ -178,6 +166,9 @@ parts = [
   Fn(enc.CODEC, "new", impl=r"impl\s+ZmtpCodec\b", emit_impl="impl ZmtpCodec",
      extra=[("R5", "DecodingState::default()", "DecodingState::ReadHeader", 1)]),
   as_contract(enc.FNS["encode"]),
+  # greeting: contracts proved on the real bodies in unit `greeting`
+  as_contract(greeting.FNS["decode"]),
+  as_contract(greeting.FNS["encode_v3_tail"]),
   # command parser/constructors: contracts proved on the real bodies in unit `command`
   as_contract(command.FNS["parse"]),
   as_contract(command.FNS["create_pong"]),
